@@ -5,7 +5,7 @@
 
   The module-level object `_SPECIFIED_DIRECTIVE_NAMES` is an explicit `PrinterState` threaded through
   every membership test, so that a HISTORY of `to_string` calls is a fold over the state.
-  `include_introspection=True` prints the library's own constants and is not modelled.
+  `include_introspection=True` writes the library's own constants too: `printSchemaX` takes them as `Builtins`.
   Import-free.
 -/
 import PyGqlModel.Sdl
@@ -460,6 +460,32 @@ def printSchema (o : Opts) (s : SchemaD) (apps : Apps) (st : PrinterState) : Str
   let ts := mapSt (fun _ t st => printType s o apps t st) 0 (sortBy (·.name) s.types) ds.2
   let parts := ((sd.1 :: ds.1) ++ ts.1).filter (!·.isEmpty)
   (if parts.isEmpty then "" else "\n\n".intercalate parts ++ "\n", ts.2)
+
+/-! ### `include_introspection = True`: the library's own constants are written too -/
+
+/-- what `to_string(include_introspection=True)` adds: the definitions of `SPECIFIED_DIRECTIVES` (in the library's order,
+    NOT sorted, before the schema's own directives) and the introspection types registered in the schema (sorted by name
+    with the schema's own types).  Both are constants of the library, re-read from the live objects on every run. -/
+structure Builtins where
+  specified : List DirectiveD := []
+  introspection : List TypeD := []
+  deriving Repr, Inhabited
+
+/-- `ASTSchemaPrinter.__call__` with the option `include_introspection` -/
+def printSchemaX (o : Opts) (intro : Bool) (b : Builtins) (s : SchemaD) (apps : Apps) (st : PrinterState) : String × PrinterState :=
+  let sd := printSchemaDefinition s o apps st
+  let sp := mapSt (fun _ d st => printDirectiveDefinition s o apps d st) 0 (if intro then b.specified else []) sd.2
+  let ds := mapSt (fun _ d st => printDirectiveDefinition s o apps d st) 0 (sortBy (·.name) s.directives) sp.2
+  let ts := mapSt (fun _ t st => printType s o apps t st) 0 (sortBy (·.name) (s.types ++ (if intro then b.introspection else []))) ds.2
+  let parts := ((sd.1 :: sp.1) ++ ds.1 ++ ts.1).filter (!·.isEmpty)
+  (if parts.isEmpty then "" else "\n\n".intercalate parts ++ "\n", ts.2)
+
+/-- a history of calls with all four options -/
+def runHistoryX (st : PrinterState) : List (Opts × Bool × Builtins × SchemaD × Apps) → List String
+  | [] => []
+  | c :: rest =>
+    let r := printSchemaX c.1 c.2.1 c.2.2.1 c.2.2.2.1 c.2.2.2.2 st
+    r.1 :: runHistoryX r.2 rest
 
 /-- a HISTORY of `to_string` calls in one process: the state is threaded through -/
 def runHistory (st : PrinterState) : List (Opts × SchemaD × Apps) → List String
